@@ -31,6 +31,14 @@ func c_alloca
   ensures result != nil
 func c_b2i
   inline
+func c_padd
+  inline
+func c_pblk
+  inline
+// the address of a string literal (used for messages only)
+func c_cstr
+  trusted
+  modifies nothing
 
 // ================= UTF-8 byte classes (bytes are C chars: -128..127) =================
 spec isCont(c int) bool  := -128 <= c && c < -64      // 10xxxxxx
@@ -159,6 +167,50 @@ func memcmp
   modifies nothing
   ensures result == 0 <==> (forall k int :: 0 <= k && k < p2 ==> byteAt(p0, k) == byteAt(p1, k))
 
+// ---- UTF-8 encoding and decoding (the two runtime functions that wrap c32rtomb / mbrtoc32; TRUSTED) ----
+spec validCp(c int) bool := 0 <= c && c <= 1114111 && !(55296 <= c && c <= 57343)
+spec encLen(c int) int := c <= 127 ? 1 : (c <= 2047 ? 2 : (c <= 65535 ? 3 : 4))
+// signed value of an unsigned byte / unsigned value of a C char
+spec sb(x int) int := x >= 128 ? x - 256 : x
+spec ub(x int) int := x < 0 ? x + 256 : x
+// k-th byte of the encoding of c
+spec encByte(c int, k int) int :=
+  encLen(c) == 1 ? c :
+  (encLen(c) == 2 ? (k == 0 ? sb(192 + c / 64) : sb(128 + c % 64)) :
+  (encLen(c) == 3 ? (k == 0 ? sb(224 + c / 4096) : (k == 1 ? sb(128 + (c / 64) % 64) : sb(128 + c % 64))) :
+                    (k == 0 ? sb(240 + c / 262144) : (k == 1 ? sb(128 + (c / 4096) % 64) : (k == 2 ? sb(128 + (c / 64) % 64) : sb(128 + c % 64))))))
+// code point encoded by the w bytes at p (the bit arithmetic is kept behind function symbols: most proofs only
+// need that the same bytes decode to the same code point)
+spec dec2(a int, b int) int
+spec dec3(a int, b int, c int) int
+spec dec4(a int, b int, c int, d int) int
+axiom dec2_def: forall a int, b int :: dec2(a, b) == (ub(a) % 32) * 64 + ub(b) % 64
+axiom dec3_def: forall a int, b int, c int :: dec3(a, b, c) == (ub(a) % 16) * 4096 + (ub(b) % 64) * 64 + ub(c) % 64
+axiom dec4_def: forall a int, b int, c int, d int :: dec4(a, b, c, d) == (ub(a) % 8) * 262144 + (ub(b) % 64) * 4096 + (ub(c) % 64) * 64 + ub(d) % 64
+spec decAt(p Ptr, w int) int :=
+  w == 1 ? byteAt(p, 0) :
+  (w == 2 ? dec2(byteAt(p, 0), byteAt(p, 1)) :
+  (w == 3 ? dec3(byteAt(p, 0), byteAt(p, 1), byteAt(p, 2)) : dec4(byteAt(p, 0), byteAt(p, 1), byteAt(p, 2), byteAt(p, 3))))
+
+// writes the encoding of p1 and a terminator into the five bytes at p0; (size_t)-1 for a value that has no encoding
+func utf8_char_to_string
+  trusted
+  requires inb(p0, 5)
+  modifies ddprt.Blk.$m
+  ensures validCp(p1) ==> result == encLen(p1) && byteAt(p0, result) == 0 && (forall k int :: 0 <= k && k < result ==> byteAt(p0, k) == encByte(p1, k))
+  ensures !validCp(p1) ==> result == -1
+  ensures forall b *Blk, k int :: !(b == p0.B && p0.O <= k && k < p0.O + 5) ==> b.$m[k] == old(b.$m[k])
+// decodes the first character of the C string p0 into *p1; returns its width (0 if malformed)
+func utf8_string_to_char
+  trusted
+  requires p0.B != nil ==> (exists n int :: nulAt(p0, n))
+  requires p1 != nil
+  modifies *int32
+  ensures p0.B == nil ==> result == -1
+  ensures forall n int :: p0.B != nil && nulAt(p0, n) ==> result == widthAt(p0, n)
+  ensures result >= 1 ==> *p1 == decAt(p0, result)
+  ensures forall q *int32 :: q != p1 ==> *q == old(*q)
+
 // ================= memory.c: the single allocation entry point =================
 // C05: the caller states the block's true size (and passes the start of a live block, or NULL with size 0)
 func ddp_reallocate [C05, C12]
@@ -240,5 +292,36 @@ func ddp_string_string_verkettet [C12, C05]
   // str2 is unchanged
   ensures str2.str == old(str2.str) && str2.cap == old(str2.cap) && wfStr(str2)
   ensures forall k int :: 0 <= k && k < str2.cap ==> byteAt(str2.str, k) == old(byteAt(str2.str, k))
+
+// structure of a well-formed Text: it starts with a lead byte; every lead byte announces 1..4 bytes that fit, are
+// continuation bytes, and are followed by the next lead byte or the end
+spec leadW(c int) int := isAscii(c) ? 1 : (isLead2(c) ? 2 : (isLead3(c) ? 3 : (isLead4(c) ? 4 : 0)))
+spec validT(s *ddpstring) bool :=
+  s.str.B != nil ==>
+    !isCont(byteAt(s.str, 0)) &&
+    (forall i int :: 0 <= i && i < s.cap - 1 && !isCont(byteAt(s.str, i)) ==>
+        leadW(byteAt(s.str, i)) >= 1 && i + leadW(byteAt(s.str, i)) <= s.cap - 1 &&
+        (leadW(byteAt(s.str, i)) >= 2 ==> isCont(byteAt(s.str, i + 1))) &&
+        (leadW(byteAt(s.str, i)) >= 3 ==> isCont(byteAt(s.str, i + 2))) &&
+        (leadW(byteAt(s.str, i)) >= 4 ==> isCont(byteAt(s.str, i + 3))) &&
+        !isCont(byteAt(s.str, i + leadW(byteAt(s.str, i)))))
+
+// indexing: the index-th code point (1-based); a run-time error exactly for an index outside 1..length
+func ddp_string_index [C12, C06]
+  requires wfStr(str) && validT(str)
+  modifies nothing
+  // C06: the error function is reached only for an index outside the Text ...
+  callsite ddp_runtime_error requires index < 1 || index > cpCount(str)
+  // ... and a normal return means the index was inside
+  ensures 1 <= index && index <= cpCount(str)
+  // C12: the result is the code point whose lead byte is preceded by exactly index-1 lead bytes
+  // (i is the function's own cursor at the return)
+  ensures 0 <= i && i < lenB(str) && !isCont(byteAt(str.str, i)) &&
+            count(k, 0, i, !isCont(byteAt(str.str, k))) == index - 1 &&
+            result == decAt(mk[Ptr](str.str.B, str.str.O + i), leadW(byteAt(str.str, i)))
+  loop 0 invariant 0 <= i && i <= lenB(str) && (i < lenB(str) ==> !isCont(byteAt(str.str, i)))
+  loop 0 invariant 1 <= len_ && len_ <= index && count(k, 0, i, !isCont(byteAt(str.str, k))) == index - len_
+  loop 0 invariant str_addr == str && index_addr == index && str.str.B != nil && str.cap >= 2
+  loop 0 decreases lenB(str) - i
 @*/
 #endif
